@@ -67,7 +67,7 @@ PROPS = {
                   "every built-in Encode impl of the C01 rows vs an independent reference encoding",
         "outside": "payloads > 4 bytes (only their heads, up to 65537), call sequences > 4, ArrayIter/MapIter over more than 2 items",
         "assumptions": [],
-        "groups": [core({"quick": ["c03::c03_", "::q::c03"], "thorough": ["c03::c03_", "::c03"]})],
+        "groups": [core({"quick": ["c03::c03_", "::q::c03", "c01t::c01_q_tok"], "thorough": ["c03::c03_", "::c03", "c01t::c01_q_tok"]})],
     },
     "C04": {
         "title": "typed decoding agrees with the RFC 8949 data model",
@@ -113,7 +113,8 @@ PROPS = {
         "outside": "encode->decode in ONE query (symbolic cursor after variable-width heads: > 300 s per schema, abandoned); in-head values other than the sampled constants 0/1/22/23; "
                   "Cow fields with #[b] (need alloc); generics / borrowing / custom nil codecs beyond the hand-written instances (extra.rs)",
         "assumptions": ["Decoder::skip replaced by the R3 model (C06 proves skip == R3); on a lone break byte the model consumes it as the real skip does"],
-        "groups": [derive({"quick": ["::q::c09_", "::q::c08", "extra::c0"], "thorough": ["::c09_", "::c08", "extra::c0"]})],
+        "groups": [derive({"quick": ["::q::c09_", "::q::c08", "extra::c0"], "thorough": ["::c09_", "::c08", "extra::c0"]}),
+                   derive({"quick": ["extra::with_alloc::"], "thorough": ["extra::with_alloc::", "::q::c09_wrong"]}, features=("alloc",))],
     },
     "C10": {
         "title": "derived codecs are forward/backward compatible",
@@ -178,17 +179,18 @@ PROPS = {
         "bounds": "no cross-build query exists: agreement is shown by TRANSITIVITY through a complete oracle. The identical harness sources of C05 (all integer heads x all accessors), C04 (accessors vs R1/R8), "
                   "C03 (every Encoder method), C06 (skip vs R3; the documented no-alloc difference is cfg-ed into the oracle) and, with half, C11 steps / C12 are verified against minicbor built with "
                   "{} and {alloc} (quick: the u8/u64/i8/i64/Int/char accessors, datatype, the u64/i64/simple encoder methods, skip models and skip on N=3); thorough adds {std}, {half,std}, {half,alloc} and the full harness sets; each harness fixes, for every input in its bound, the Ok/Err outcome, the value and the position, "
-                  "so builds that all satisfy it agree with each other. minicbor-serde: C17 Serializer/Deserializer harnesses under {} (quick) and {alloc,half}, {std,half} (thorough); {half} is what C17 itself checks",
+                  "so builds that all satisfy it agree with each other. minicbor-derive under {alloc} (wrong-tag error class AND position, a round trip, an encoding); minicbor-serde: C17 Serializer/Deserializer harnesses under {} (quick) and {alloc,half}, {std,half} (thorough); {half} is what C17 itself checks",
         "outside": "error MESSAGES (static vs formatted) and error classes beyond Ok/Err where the single-build oracle only requires 'an error'; 32-bit targets and atomic32; the alloc-build skip beyond N=3",
         "assumptions": ["agreement is derived by transitivity (argument), each build is decided by its own queries"],
         "groups": [
-            core({"quick": ["c05::c05_u8", "c05::c05_u64", "c05::c05_i8", "c05::c05_i64", "c05::c05_int", "c05::c05_char", "c04::c04_datatype", "c04::c04_bytes_definite", "c03::c03_u64", "c03::c03_i64", "c03::c03_simple", "c06::c06_lm", "c06::c06_a1_n3"],
+            core({"quick": ["c05::c05_u8", "c05::c05_u64", "c05::c05_i8", "c05::c05_i64", "c05::c05_int", "c05::c05_char", "c04::c04_datatype", "c04::c04_bytes_definite", "c03::c03_u64", "c03::c03_i64", "c03::c03_simple", "c06::c06_lm", "c06::c06_a1_n3", "c06::c06_a1_n4"],
                   "thorough": ["c05::c05_", "c04::c04_", "c03::c03_", "c06::c06_lm", "c06::c06_a1_n", "::q::c01", "::q::c07"]}, features=(), timeout={"quick": 400, "thorough": 3600}),
             core({"quick": ["c05::c05_u8", "c05::c05_u64", "c05::c05_i8", "c05::c05_i64", "c05::c05_int", "c05::c05_char", "c04::c04_datatype", "c03::c03_u64", "c03::c03_i64", "c03::c03_simple", "c06::c06_lm"],
                   "thorough": ["c05::c05_", "c04::c04_", "c03::c03_", "c06::c06_lm", "c06::c06_a1_n1", "c06::c06_a1_n2", "::q::c01", "::q::c07"]}, features=("alloc",), timeout={"quick": 400, "thorough": 7200}),
             core(["c05::c05_", "c04::c04_", "c03::c03_", "c12::c12_", "c11_gen::q::"], features=("half", "std"), tiers=["thorough"]),
             core(["c05::c05_", "c04::c04_", "c03::c03_", "::q::c01", "::q::c07"], features=("std",), tiers=["thorough"]),
             core(["c05::c05_", "c04::c04_", "c12::c12_", "c11_gen::q::"], features=("half", "alloc"), tiers=["thorough"]),
+            derive({"quick": ["::q::c09_wrong_tag", "gen::s_tags::q::c09_l0", "gen::s_eplain::q::c08"], "thorough": ["::q::c09_", "::q::c08"]}, features=("alloc",), timeout={"quick": 400, "thorough": 3600}),
             serde({"quick": ["c17::c17_ser_u8", "c17::c17_ser_u64", "c17::c17_de_u8", "c17::c17_de_u64", "c17::c17_de_seq_def2", "c17::c17_de_seq_indef2", "c17::c17_de_tuple_len"], "thorough": ["c17::c17_"]}, features=(), timeout={"quick": 400, "thorough": 3600}),
             serde(["c17::c17_"], features=("half", "alloc"), tiers=["thorough"]),
             serde(["c17::c17_"], features=("half", "std"), tiers=["thorough"]),
@@ -239,6 +241,7 @@ PROPS["S-core-none"] = {"title": "scratch: core[]", "groups": [core(["zz_"], fea
 PROPS["S-io"] = {"title": "scratch: io", "groups": [io(["zz_"])]}
 PROPS["S-serde-alloc"] = {"title": "scratch: serde alloc", "groups": [serde(["zz_"], features=("half", "alloc"))]}
 PROPS["S-serde"] = {"title": "scratch: serde", "groups": [serde(["zz_"])]}
+PROPS["S-derive-alloc"] = {"title": "scratch: derive alloc", "groups": [derive(["zz_"], features=("alloc",))]}
 PROPS["S-derive"] = {"title": "scratch: derive", "groups": [derive(["zz_"])]}
 
 _NA = {
